@@ -131,3 +131,59 @@ func lemmaHpackIntTruncated(n byte, i uint64, cut int) (ok bool) {
 //@   ensures  err == errNeedMore ==> unchanged(d.buf) && unchanged(d.dynTab.size) && unchanged(d.dynTab.maxSize)
 //@   ensures  err == nil ==> samebase(d.buf, old(d.buf)) && startoff(d.buf) > startoff(old(d.buf)) && endoff(d.buf) == endoff(old(d.buf))
 //@   noframe
+
+// ---------------------------------------------------------------------------
+// Encoder: pending dynamic-table size updates (property C01). minSize records the smallest size
+// set since the last header block only while an update is pending; emitting the update resets it.
+// If it were not reset, a later block would re-announce a stale minimum and the decoder would
+// evict entries the encoder still refers to.
+//
+//@ func (*Encoder).WriteField(e, f) (err)
+//@   requires e != nil && (!e.tableSizeUpdate ==> e.minSize == uint32Max)
+//@   ensures  !e.tableSizeUpdate && e.minSize == uint32Max
+//@   assert at call appendTableSize: uint32($v) == old(e.minSize) || uint32($v) == e.dynTab.maxSize
+//@   assert at call appendTableSize#1: old(e.tableSizeUpdate)
+//@   trustcall Write
+//@   partial nopanic
+//@   noframe
+//@
+//@ func (*Encoder).SetMaxDynamicTableSize(e, v)
+//@   requires e != nil && (!e.tableSizeUpdate ==> e.minSize == uint32Max)
+//@   ensures  e.tableSizeUpdate && e.minSize <= old(e.minSize) && e.minSize <= min(v, old(e.maxSizeLimit))
+//@   ensures  e.minSize == old(e.minSize) || e.minSize == min(v, old(e.maxSizeLimit))
+//@   noframe
+//@
+//@ func (*Encoder).SetMaxDynamicTableSizeLimit(e, v)
+//@   requires e != nil && (!e.tableSizeUpdate ==> e.minSize == uint32Max)
+//@   ensures  !e.tableSizeUpdate ==> e.minSize == uint32Max
+//@   ensures  e.minSize == old(e.minSize) && e.maxSizeLimit == v
+//@   noframe
+//@
+//@ func (*Encoder).searchTable(e, f) (i, nameValueMatch)
+//@   trusted
+//@ func appendTableSize(dst, v) (out)
+//@   trusted
+//@   modifies elems(dst)
+//@   allocates
+//@ func appendIndexed(dst, i) (out)
+//@   trusted
+//@   modifies elems(dst)
+//@   allocates
+//@ func appendNewName(dst, f, indexing) (out)
+//@   trusted
+//@   modifies elems(dst)
+//@   allocates
+//@ func appendIndexedName(dst, f, i, indexing) (out)
+//@   trusted
+//@   modifies elems(dst)
+//@   allocates
+//@
+//@ func NewEncoder(w) (e)
+//@   ensures e != nil && e.minSize == uint32Max && !e.tableSizeUpdate
+//@   partial nopanic
+//@   noframe
+//@   allocates
+//@ func (*headerFieldTable).init(t)
+//@   trusted
+//@   modifies *t
+//@   allocates
